@@ -22,7 +22,8 @@ LEVEL_TEXT = ('Every layout of one or two records (thorough: three) over start i
               'and the overlap warning are compared with the image the statement describes.'
               ' Quick additionally enumerates all three-record layouts of one family (chained overlap bookkeeping) and every -S header combined with -s.'
               ' Windows that leave an image without a byte are combined with -s and -S.'
-              ' Added in the last round: ids taken off the filter list with +f.')
+              ' Added in the last round: ids taken off the filter list with +f.'
+              ' Lane modes are also run with windows that start off zero (start and length whole lane groups in bytes; granularity 1, 2 and 4).')
 LEVEL_NOTE = ('Trusted: pfile writer (self-tested against its reader and against asl-produced files), the image model. Lane modes are enumerated '
               'with windows aligned to the lane period (the manual defines the thinned image only for whole lane groups).')
 RULE = 'layout x option set; non-trivial = at least two records or one option deviation'
